@@ -530,6 +530,91 @@ def np_argsort(ex, args, kw, st):
     return SSeq(n, lambda i: perm(num_term(i)), 'int')
 
 
+def _flat_view(v):
+    """(length term, element function of a flat index, 'kind') of a 1-D / 2-D array or sequence
+    in C order -- used by order-insensitive specifications (np.unique)."""
+    if isinstance(v, SSeq):
+        return num_term(v.length), v.fn, v.kind
+    if isinstance(v, SArr) and v.ndim == 1:
+        f = snap(v)
+        return num_term(v.shape[0]), (lambda i: f((i,))), v.kind
+    if isinstance(v, SArr) and v.ndim == 2:
+        f = snap(v)
+        w = num_term(v.shape[1])
+        n = num_term(v.shape[0]) * w
+        return n, None, v.kind          # membership is stated over (i, j) pairs instead
+    raise Unsupported('np.unique of this value')
+
+
+def np_unique(ex, args, kw, st):
+    """np.unique(a): the distinct values of a in strictly increasing order (specified by
+    membership both ways; NaN-free integer / finite data)."""
+    if kw:
+        raise Unsupported('np.unique with options')
+    v = args[0]
+    uid = next(_bv)
+    kind = v.kind if isinstance(v, (SArr, SSeq)) else 'int'
+    sort = {'int': z3.IntSort(), 'real': z3.RealSort()}.get(kind)
+    if sort is None:
+        raise Unsupported('np.unique of a boolean array')
+    u = z3.Function(f'unique!{uid}', z3.IntSort(), sort)
+    m = fresh_int(f'nunique{uid}')
+    st.fact(m >= 0)
+    k, k2 = z3.Int(f'bv!uq{uid}k'), z3.Int(f'bv!uq{uid}m')
+    st.fact(z3.ForAll([k, k2], z3.Implies(z3.And(k >= 0, k < k2, k2 < m), u(k) < u(k2))))
+    if isinstance(v, SArr) and v.ndim == 2:
+        f = snap(v)
+        i, j = z3.Int(f'bv!uq{uid}i'), z3.Int(f'bv!uq{uid}j')
+        inb = z3.And(i >= 0, i < num_term(v.shape[0]), j >= 0, j < num_term(v.shape[1]))
+        wi = z3.Function(f'unique_wi!{uid}', z3.IntSort(), z3.IntSort())
+        wj = z3.Function(f'unique_wj!{uid}', z3.IntSort(), z3.IntSort())
+        pos = z3.Function(f'unique_pos!{uid}', z3.IntSort(), z3.IntSort(), z3.IntSort())
+        # every listed value occurs somewhere; every element is listed
+        st.fact(z3.ForAll([k], z3.Implies(z3.And(k >= 0, k < m), z3.And(
+            wi(k) >= 0, wi(k) < num_term(v.shape[0]), wj(k) >= 0, wj(k) < num_term(v.shape[1]),
+            num_term(f((wi(k), wj(k)))) == u(k)))))
+        elem = num_term(f((i, j)))
+        st.fact(z3.ForAll([i, j], z3.Implies(inb, z3.And(pos(i, j) >= 0, pos(i, j) < m,
+                                                         u(pos(i, j)) == elem)),
+                          patterns=[elem] if z3.is_app(elem) and elem.num_args() > 0 else []))
+    else:
+        n, fn, _ = _flat_view(v)
+        w = z3.Function(f'unique_w!{uid}', z3.IntSort(), z3.IntSort())
+        pos = z3.Function(f'unique_pos!{uid}', z3.IntSort(), z3.IntSort())
+        i = z3.Int(f'bv!uq{uid}i')
+        st.fact(z3.ForAll([k], z3.Implies(z3.And(k >= 0, k < m), z3.And(
+            w(k) >= 0, w(k) < n, num_term(fn(w(k))) == u(k)))))
+        elem = num_term(fn(i))
+        st.fact(z3.ForAll([i], z3.Implies(z3.And(i >= 0, i < n), z3.And(
+            pos(i) >= 0, pos(i) < m, u(pos(i)) == elem)),
+            patterns=[elem] if z3.is_app(elem) and elem.num_args() > 0 else []))
+    return SSeq(m, lambda q: u(num_term(q)), kind)
+
+
+def fresh_int(name):
+    from .symexec import fresh
+    return fresh(name, 'int')
+
+
+def seq_filter(ex, seq, mask, st):
+    """seq[mask] for a 1-D sequence and a boolean sequence of the same length: the selected
+    elements in their original order (an increasing position map g with an inverse h)."""
+    uid = next(_bv)
+    n = num_term(seq.length)
+    st.check('boolean index has the length of the sequence', num_term(mask.length) == n)
+    m = fresh_int(f'nsel{uid}')
+    g = z3.Function(f'selpos!{uid}', z3.IntSort(), z3.IntSort())
+    h = z3.Function(f'selinv!{uid}', z3.IntSort(), z3.IntSort())
+    k, k2, j = z3.Int(f'bv!sf{uid}k'), z3.Int(f'bv!sf{uid}m'), z3.Int(f'bv!sf{uid}j')
+    st.fact(z3.And(m >= 0, m <= n))
+    st.fact(z3.ForAll([k], z3.Implies(z3.And(k >= 0, k < m), z3.And(
+        g(k) >= 0, g(k) < n, to_bool(mask.fn(g(k)))))))
+    st.fact(z3.ForAll([k, k2], z3.Implies(z3.And(k >= 0, k < k2, k2 < m), g(k) < g(k2))))
+    st.fact(z3.ForAll([j], z3.Implies(z3.And(j >= 0, j < n, to_bool(mask.fn(j))), z3.And(
+        h(j) >= 0, h(j) < m, g(h(j)) == j))))
+    return SSeq(m, lambda q: seq.fn(g(num_term(q))), seq.kind)
+
+
 def np_atleast_2d(ex, args, kw, st):
     v = args[0]
     if isinstance(v, SArr) and v.ndim == 2:
@@ -935,7 +1020,7 @@ TABLE = {
     'np.count_nonzero': np_count_nonzero, 'np.sum': np_sum, 'np.nansum': np_sum, 'np.any': np_any, 'np.all': np_all,
     'np.diff': np_diff, 'np.argmax': np_argmax_first_true,
     'PchipInterpolator': p_interp('PchipInterpolator'), 'np.ndim': np_ndim,
-    'forall_real': cl_forall_real, 'np.argsort': np_argsort, 'np.arange': np_arange, 'np.broadcast_to': np_broadcast_to, 'np.atleast_2d': np_atleast_2d, 'np.clip': np_clip, 'spline': cl_uf('spline'),
+    'forall_real': cl_forall_real, 'np.unique': np_unique, 'np.argsort': np_argsort, 'np.arange': np_arange, 'np.broadcast_to': np_broadcast_to, 'np.atleast_2d': np_atleast_2d, 'np.clip': np_clip, 'spline': cl_uf('spline'),
     'np.deg2rad': p_uf1('deg2rad'), 'deg2rad_': cl_uf('deg2rad'), 'exp_': cl_uf('exp'),
     'erf_': cl_uf('erf'), 'sin_': cl_uf('sin'), 'cos_': cl_uf('cos'), 'sqrt_': cl_uf('sqrt'), 'asin_': cl_uf('asin'),
     'pi_': None,
@@ -1027,6 +1112,18 @@ def arr_method(ex, v, meth, args, kw, st):
         raise Unsupported('astype')
     if meth == 'sum':
         return np_sum(ex, [v], kw, st)
+    if meth in ('max', 'min') and isinstance(v, SSeq) and v.kind in ('int', 'real'):
+        # extremum of a non-empty finite sequence: an element that bounds all the others
+        from .symexec import fresh
+        n = num_term(v.length)
+        st.check(f'{meth}() of a non-empty sequence', n >= 1)
+        r = fresh(meth, v.kind)
+        w = fresh(meth + '_at', 'int')
+        k = z3.Int(f'bv!{next(_bv)}')
+        cmp = (lambda a, b: a >= b) if meth == 'max' else (lambda a, b: a <= b)
+        st.fact(z3.Implies(n >= 1, z3.And(w >= 0, w < n, num_term(v.fn(w)) == r)))
+        st.fact(z3.ForAll([k], z3.Implies(z3.And(k >= 0, k < n), cmp(r, num_term(v.fn(k))))))
+        return r
     if meth == 'swapaxes':
         a, b = concrete(args[0]), concrete(args[1])
         if not isinstance(v, SArr) or v.ndim != 2 or a is None or b is None:
